@@ -161,4 +161,82 @@ def extractOK (parent : Baggage) (hdr : Bytes) (result : Baggage) : Bool :=
   sameMap result parent ||
     (!hdr.isEmpty && !result.isEmpty && parsedOK hdr result && result.length ≤ (splitOn cComma hdr).length)
 
+/-! ## the property grammar (W3C: `property = OWS key OWS [ "=" OWS value OWS ]`), positional -/
+
+/-- RFC 7230 `OWS = *( SP / HTAB )` — the only whitespace the property scanner skips (no unicode spaces,
+no CR/LF/VT/FF) -/
+def isOWSb (c : UInt8) : Bool := c == 0x20 || c == 0x09
+
+/-- value of one hex digit -/
+def hexVal (c : UInt8) : UInt8 :=
+  if 0x30 ≤ c && c ≤ 0x39 then c - 0x30 else if 0x61 ≤ c && c ≤ 0x66 then c - 0x61 + 10 else c - 0x41 + 10
+
+/-- percent-decoding of a text in which every `%` starts a `%XX` triplet (`pctOK`) -/
+def pctDecode : Bytes → Bytes
+  | [] => []
+  | c :: rest =>
+    if c = 0x25 then
+      match rest with
+      | a :: b :: r => (hexVal a <<< 4 ||| hexVal b) :: pctDecode r
+      | _ => []
+    else c :: pctDecode rest
+
+/-- the key of a property string: the longest run of `tchar` after the leading OWS -/
+def propKeyOf (s : Bytes) : Bytes := (s.dropWhile isOWSb).takeWhile tchar
+
+/-- what follows the key and the OWS after it -/
+def propAfterKey (s : Bytes) : Bytes := ((s.dropWhile isOWSb).dropWhile tchar).dropWhile isOWSb
+
+/-- the raw (still percent-encoded) value: the longest run of baggage-octets after `=` and OWS -/
+def propRawOf (s : Bytes) : Bytes := (((propAfterKey s).drop 1).dropWhile isOWSb).takeWhile baggageOctet
+
+/-- what follows the raw value and the OWS after it (must be nothing) -/
+def propTail (s : Bytes) : Bytes :=
+  ((((propAfterKey s).drop 1).dropWhile isOWSb).dropWhile baggageOctet).dropWhile isOWSb
+
+/-- **which strings are properties**: a non-empty token key after optional OWS; then either nothing
+but OWS (key-only property), or `=` — the *first* byte after the key and its OWS — followed by OWS, a
+(possibly empty) run of baggage-octets in which every `%` starts a `%XX` triplet, and OWS up to the
+end. A second `=` is an ordinary value byte; any other byte (`;` `,` quote, unicode space, CR/LF, a
+second word) after the key or after the value makes the string invalid. -/
+def propertyAccepts (s : Bytes) : Bool :=
+  !(propKeyOf s).isEmpty &&
+  (match propAfterKey s with
+   | [] => true
+   | c :: _ => c == 0x3D && (propTail s).isEmpty && pctOK (propRawOf s))
+
+/-- **what an accepted property string denotes**: key-only ⇒ no value; otherwise the percent-decoded
+raw value with every invalid UTF-8 byte replaced by U+FFFD -/
+def propertyDecode (s : Bytes) : Property :=
+  match propAfterKey s with
+  | [] => ⟨propKeyOf s, [], false⟩
+  | _ :: _ => ⟨propKeyOf s, replaceInvalid (pctDecode (propRawOf s)), true⟩
+
+/-! ## the list-member grammar, positional: `OWS key OWS "=" OWS value OWS *( ";" property )` -/
+
+/-- the property pieces after the first `;`: empty pieces (`;;`, trailing `;`) are skipped, every
+other piece must be a property -/
+def memberPropsOK (rest : Bytes) : Bool := (splitOn cSemi rest).all (fun p => p.isEmpty || propertyAccepts p)
+
+def memberPropsDecode (rest : Bytes) : List Property :=
+  ((splitOn cSemi rest).filter (fun p => !p.isEmpty)).map propertyDecode
+
+/-- **which strings are list-members**: at most 4096 bytes; everything before the first `;` is
+`key=value` split at the *first* `=` (a value may contain `=`), both sides trimmed with
+`strings.TrimSpace` (so here, unlike inside properties, unicode spaces and CR/LF are stripped too);
+the key a token, the value baggage-octets with well-formed `%XX`; every non-empty `;`-piece after it a
+property. -/
+def memberAccepts (m : Bytes) : Bool :=
+  m.length ≤ maxBytesPerMembers &&
+  (!(cut cSemi m).2.2 || memberPropsOK (cut cSemi m).2.1) &&
+  (cut cEq (cut cSemi m).1).2.2 &&
+  isToken (trimSpace (cut cEq (cut cSemi m).1).1) &&
+  (trimSpace (cut cEq (cut cSemi m).1).2.1).all baggageOctet &&
+  pctOK (trimSpace (cut cEq (cut cSemi m).1).2.1)
+
+def memberDecode (m : Bytes) : Member :=
+  ⟨trimSpace (cut cEq (cut cSemi m).1).1,
+   replaceInvalid (pctDecode (trimSpace (cut cEq (cut cSemi m).1).2.1)),
+   if (cut cSemi m).2.2 then memberPropsDecode (cut cSemi m).2.1 else []⟩
+
 end Otel.C11.Spec
